@@ -78,6 +78,8 @@ impl Family for C16 {
       ("take", Json::Int(rng.range(1, 4) as i64)),
       ("trigger_ms", Json::Int(trigger)),
       ("jitter", Json::Bool(rng.below(3) == 0)),
+      // delay kinds: the period in microseconds instead of d_ms (0 = use d_ms), also below one millisecond
+      ("delay_us", Json::Int(if (kind == "delay" || kind == "delay-two-sources") && rng.below(4) == 0 { *rng.pick(&[300i64, 800, 1500, 99_999]) } else { 0 })),
     ])
   }
   fn knobs(&self, rng: &mut Rng, w: &Json, _tier: Tier) -> Json {
@@ -110,6 +112,12 @@ impl Family for C16 {
       return RunOut::invalid();
     }
     let jitter = cfg.jitter_max_ns > 0;
+    let delay_us = if w.get("delay_us").is_some() { w.i("delay_us") } else { 0 };
+    if delay_us < 0 || delay_us > 5_000_000 {
+      return RunOut::invalid();
+    }
+    // the period of the delay kinds
+    let delay_dur = if delay_us > 0 { Duration::from_micros(delay_us as u64) } else { ms(d) };
     let mut delays: Vec<i64> = w.a("consumer_delays_ms").iter().filter_map(|x| x.as_i64()).collect();
     delays.resize(n_items as usize, 0);
     if kind != "timeout" {
@@ -194,13 +202,13 @@ impl Family for C16 {
         }
         "delay" => {
           mark("subscribe");
-          let _sub = rec2.subscribe(&src().delay(ms(d)));
+          let _sub = rec2.subscribe(&src().delay(delay_dur));
         }
         "delay-two-sources" => {
           // two producer threads into one delay: an item arrives while another one is being delayed
           let b = threaded_source("timed-source-b", script_b.clone(), sl.clone(), false, gaps_b_ns.clone(), handles.clone());
           mark("subscribe");
-          let _sub = rec2.subscribe(&src().merge(&[b]).delay(ms(d)));
+          let _sub = rec2.subscribe(&src().merge(&[b]).delay(delay_dur));
         }
         "timeout" => {
           mark("subscribe");
@@ -267,7 +275,7 @@ impl Family for C16 {
         v.push(Violation::new("event-after-terminal", blame, b));
       }
       let t0 = t_of("subscribe").unwrap_or(0);
-      let dn = d as u64 * MS;
+      let dn = if (kind == "delay" || kind == "delay-two-sources") && delay_us > 0 { delay_us as u64 * 1000 } else { d as u64 * MS };
       let shown = evs.iter().map(|r| format!("{}@{:.1}ms", r.ev.show(), r.t as f64 / 1e6)).collect::<Vec<_>>().join(" ");
       let at = |t: u64, want: u64| -> bool { if jitter { t >= want } else { t == want } };
       match kind.as_str() {
@@ -573,6 +581,12 @@ const C15_CONSTRUCTS: &[&str] = &[
   "interval-combine_latest-interval",
   "observe_on-cold-error-retry",
   "interval-window-flat_map",
+  // two producer threads inside timeout at once (a timer armed by one may be replaced by the other's)
+  "timeout-two-sources",
+  // triggers that own a thread and go on after they fired
+  "skip_until-by-interval",
+  "skip_until-by-observe_on",
+  "take_until-by-interval",
 ];
 // "unsubscribe-in-scheduler-factory": the scheduler factory of an inner stream (flat_map nestings)
 // unsubscribes the whole subscription - the inner stream's observer dies exactly while it is being set up
@@ -720,6 +734,17 @@ impl Family for C15 {
             cold_source(vec![sc, script.clone()], slog.clone(), None, true).observe_on(sched()).retry(1)
           }
           "interval-window-flat_map" => iv().window_with_count(2).flat_map(|w: Observable<'static, Val>| w),
+          "timeout-two-sources" => {
+            let b = threaded_source("timed-source-b", script.iter().map(|s| if let Step::N(i) = s { Step::N(*i + 50) } else { s.clone() }).collect(), slog.clone(), true, gaps.clone(), handles.clone());
+            // same gaps on purpose: both producers wake at the same virtual instant and are inside timeout together
+            timed_src().merge(&[b]).timeout(ms(d), sched())
+          }
+          "skip_until-by-interval" => timed_src().skip_until(observables::interval(ms(d), sched())),
+          "skip_until-by-observe_on" => {
+            let trig = threaded_source("trigger-source", vec![Step::N(1), Step::N(2)], slog.clone(), true, vec![gap as u64 * MS / 2 + MS, gap as u64 * MS], handles.clone());
+            timed_src().skip_until(trig.observe_on(sched()))
+          }
+          "take_until-by-interval" => timed_src().take_until(observables::interval(ms(d), sched())),
           "debounce-cold" => cold_source(vec![script.clone()], slog.clone(), None, true).debounce(ms(d), sched()),
           "timeout-cold" => cold_source(vec![script.clone()], slog.clone(), None, true).timeout(ms(d), sched()),
           "observe_on-cold" => cold_source(vec![script.clone()], slog.clone(), None, true).observe_on(sched()),
